@@ -95,8 +95,19 @@ spec_make(struct spec_s *s, int kind, int n, int down)
 /* FAM_B: a date given and printed as business day of the month (2012-03-05b), held as DT_BIZDA;
  * encoded as the rd of that day like FAM_D */
 /* FAM_W: a date given and printed as ISO week date (2012-W02-5), held as DT_YWD; encoded as rd */
-enum { FAM_D, FAM_T, FAM_DT, FAM_SX, FAM_B, FAM_W };
-static const char *const fam_name[] = {"date", "time", "datetime", "epoch", "bizda", "ywd"};
+/* FAM_YD, FAM_YMCW, FAM_LDN: a date given, held and printed as year-day (2012-070), as n-th weekday of
+ * the month (2012-03-02-03) and as Lilian day number (-i ldn); encoded as rd.
+ * FAM_NS: a date-time with a sub-second part (-i/-f %FT%T.%N); encoded as instant * 4 + k, the
+ * fraction being NSFRAC[k] */
+enum { FAM_D, FAM_T, FAM_DT, FAM_SX, FAM_B, FAM_W, FAM_YD, FAM_YMCW, FAM_LDN, FAM_NS, NFAM };
+static const char *const fam_name[] = {"date", "time", "datetime", "epoch", "bizda", "ywd", "yd", "ymcw", "ldn", "subsecond"};
+static const int NSFRAC[4] = {500000000, 1, 999999999, 0};
+
+static int
+fam_day_p(int fam)
+{
+	return fam == FAM_D || fam == FAM_B || fam == FAM_W || fam == FAM_YD || fam == FAM_YMCW || fam == FAM_LDN;
+}
 
 static int
 rd_ok(int64_t rd)
@@ -131,12 +142,14 @@ walk_days(int rd, int kind, int n, int down, int next, int clamp)
 				return r;
 			}
 			break;
-		case K_BD:
-			/* n <= 20: every month has that many business days */
-			if (p->isbd && p->bd == n) {
+		case K_BD: {
+			/* business days of that month: the count on its last day */
+			int nbd = rc_get(rc_rd(p->y, p->m, p->mlen))->bd;
+			if (p->isbd && p->bd == ((clamp && n > nbd) ? nbd : n)) {
 				return r;
 			}
 			break;
+		}
 		}
 	}
 	return NONE;
@@ -284,23 +297,38 @@ dgrid(int kind, int n)
 /* the model's answer.  returns 0 and *out (same encoding as the input), or
  * 1 = outside the property by the stated reading (why in *skip), 2 = result outside the range */
 static int
-oracle(int fam, int64_t in, const struct spec_s *s, int next, int64_t *out, const char **skip)
+oracle0(int fam, int64_t in, const struct spec_s *s, int next, int64_t *out, const char **skip)
 {
 	int64_t rd, r;
 	int sec;
 
-	if (fam == FAM_SX) {
-		/* the tool refuses value targets on epoch values and has no day/month/year grid for them */
-		if (s->kind != K_COH && s->kind != K_COM && s->kind != K_COS) {
-			*skip = "target other than /Nh /Nm /Ns on an epoch value";
-			return 1;
+
+	if (fam == FAM_NS) {
+		/* T = inst + frac, 0 < frac < 1 s.  co-classes: the grid points are whole seconds, so the
+		 * smallest one >= (>) T is the smallest >= inst + 1 and the largest <= (<) T is the largest
+		 * <= inst; the result has no fraction.  value targets keep the finer fields, fraction included */
+		int64_t inst = in >> 2, o;
+		int k = (int)(in & 3), rc;
+		int co = s->kind >= K_COH && s->kind != K_BD && s->kind != K_WK;
+		if (co) {
+			rc = oracle0(FAM_DT, s->down ? inst : inst + 1, s, 0, &o, skip);
+			k = 3;
+		} else {
+			rc = oracle0(FAM_DT, inst, s, next, &o, skip);
 		}
+		if (rc == 0) {
+			*out = (o << 2) | k;
+		}
+		return rc;
+	}
+	if (fam == FAM_SX) {
+		/* an epoch value is a date-time; a target the tool cannot apply to it may be refused */
 		fam = FAM_DT;
 	}
-	if (fam == FAM_W) {
+	if (s->kind == K_WK) {
 		int64_t cl;
-		if (s->kind != K_WK) {
-			*skip = "target other than Nw on a week date";
+		if (fam != FAM_W) {
+			*skip = "Nw on a value not held as week date";
 			return 1;
 		}
 		r = walk_weeks((int)in, s->n, s->down, next, &cl);
@@ -314,26 +342,26 @@ oracle(int fam, int64_t in, const struct spec_s *s, int next, int64_t *out, cons
 		*out = r;
 		return 0;
 	}
-	if (s->kind == K_WK) {
-		*skip = "Nw on a value not held as week date";
-		return 1;
-	}
-	if (fam == FAM_B) {
-		if (s->kind != K_BD) {
-			*skip = "target other than Nb on a business-day-of-month value";
+	if (s->kind == K_BD) {
+		if (fam != FAM_B) {
+			/* the tool says so itself: "rounding to n-th business day not supported for input value" */
+			*skip = "Nb on a value not held as business day of the month";
 			return 1;
 		}
-		r = walk_days((int)in, K_BD, s->n, s->down, next, 0);
+		r = walk_days((int)in, K_BD, s->n, s->down, next, 1);
+		if (walk_days((int)in, K_BD, s->n, s->down, next, 0) != r) {
+			*skip = "business-day target beyond a month's last business day: exact vs. clamped reading differ";
+			return 1;
+		}
 		if (r == NONE) {
 			return 2;
 		}
 		*out = r;
 		return 0;
 	}
-	if (s->kind == K_BD) {
-		/* the tool says so itself: "rounding to n-th business day not supported for input value" */
-		*skip = "Nb on a value not held as business day of the month";
-		return 1;
+	if (fam_day_p(fam)) {
+		/* whatever calendar the date is written in */
+		fam = FAM_D;
 	}
 	rd = fam == FAM_D ? in : fam == FAM_DT ? in / 86400 : 0;
 	sec = fam == FAM_T ? (int)in : fam == FAM_DT ? (int)(in % 86400) : 0;
@@ -431,6 +459,17 @@ oracle(int fam, int64_t in, const struct spec_s *s, int next, int64_t *out, cons
 	return 2;
 }
 
+static int
+oracle(int fam, int64_t in, const struct spec_s *s, int next, int64_t *out, const char **skip)
+{
+	int rc = oracle0(fam, in, s, next, out, skip);
+	if (rc == 0 && fam == FAM_B && !rc_get((int)*out)->isbd) {
+		*skip = "the model's result is a Saturday or Sunday: no name as business day of the month";
+		return 1;
+	}
+	return rc;
+}
+
 /* -------------------------------------------------------------- text in/out */
 static void
 fmt_inst(char *buf, size_t bsz, int fam, int64_t v)
@@ -439,6 +478,21 @@ fmt_inst(char *buf, size_t bsz, int fam, int64_t v)
 		snprintf(buf, bsz, "%02d:%02d:%02d", (int)(v / 3600), (int)(v / 60 % 60), (int)(v % 60));
 	} else if (fam == FAM_SX) {
 		snprintf(buf, bsz, "%lld", (long long)(v - (int64_t)RC_RD_1970 * 86400));
+	} else if (fam == FAM_NS) {
+		char t[40];
+		fmt_inst(t, sizeof(t), FAM_DT, v >> 2);
+		snprintf(buf, bsz, "%s.%09d", t, NSFRAC[v & 3]);
+	} else if (fam == FAM_YD || fam == FAM_YMCW || fam == FAM_LDN) {
+		const struct rc_day *p = rc_get((int)v);
+		if (p == NULL) {
+			snprintf(buf, bsz, "(out of range)");
+		} else if (fam == FAM_YD) {
+			snprintf(buf, bsz, "%04d-%03d", p->y, p->yday);
+		} else if (fam == FAM_YMCW) {
+			snprintf(buf, bsz, "%04d-%02d-%02d-%02d", p->y, p->m, p->mcnt, p->wd);
+		} else {
+			snprintf(buf, bsz, "%lld", (long long)rc_ldn(p->rd));
+		}
 	} else if (fam == FAM_W) {
 		const struct rc_day *p = rc_get((int)v);
 		if (p == NULL) {
@@ -480,6 +534,67 @@ parse_out(const char *s, int fam, int64_t *out)
 		}
 		*out = (int64_t)e + (int64_t)RC_RD_1970 * 86400;
 		return (*out >= 0 && rd_ok(*out / 86400)) ? 0 : 2;
+	}
+	case FAM_NS: {
+		int ns, k = -1;
+		int64_t o;
+		char t[40];
+		if (sscanf(s, "%d-%d-%dT%d:%d:%d.%9d%n", &y, &m, &d, &H, &M, &S, &ns, &n) != 7 || s[n] || n != 29) {
+			return 1;
+		}
+		snprintf(t, sizeof(t), "%.19s", s);
+		if ((n = parse_out(t, FAM_DT, &o))) {
+			return n;
+		}
+		for (int q = 0; q < 4; q++) {
+			if (NSFRAC[q] == ns) {
+				k = q;
+			}
+		}
+		if (k < 0) {
+			/* a fraction the inputs never have */
+			return 2;
+		}
+		*out = (o << 2) | k;
+		return 0;
+	}
+	case FAM_YD:
+		if (sscanf(s, "%d-%d%n", &y, &d, &n) != 2 || s[n]) {
+			return 1;
+		}
+		if (y < RC_MIN_YEAR || y > RC_MAX_YEAR || d < 1 || d > 365 + rc_leapp(y)) {
+			return 2;
+		}
+		*out = rc_rd(y, 1, 1) + d - 1;
+		return 0;
+	case FAM_LDN: {
+		long long e;
+		if (sscanf(s, "%lld%n", &e, &n) != 1 || s[n]) {
+			return 1;
+		}
+		*out = e - rc_ldn(0);
+		return rd_ok(*out) ? 0 : 2;
+	}
+	case FAM_YMCW: {
+		int c, w, r0;
+		if (sscanf(s, "%d-%d-%d-%d%n", &y, &m, &c, &w, &n) != 4 || s[n]) {
+			return 1;
+		}
+		if (w == 0) {
+			w = 7;
+		}
+		if (y < RC_MIN_YEAR || y > RC_MAX_YEAR || m < 1 || m > 12 || c < 1 || c > 5 || w < 1 || w > 7) {
+			return 2;
+		}
+		r0 = rc_rd(y, m, 1);
+		for (int q = 0; q < rc_mlen(y, m); q++) {
+			const struct rc_day *p = rc_get(r0 + q);
+			if (p->mcnt == c && p->wd == w) {
+				*out = r0 + q;
+				return 0;
+			}
+		}
+		return 2;
 	}
 	case FAM_W: {
 		int jan4, mon1;
@@ -552,7 +667,10 @@ parse_out(const char *s, int fam, int64_t *out)
 	return 0;
 }
 
-static const char *const fam_fmt[] = {"%Y-%m-%d", "%H:%M:%S", "%Y-%m-%dT%H:%M:%S", "%s", "%Y-%m-%db", NULL};
+static const char *const fam_fmt[] = {"%Y-%m-%d", "%H:%M:%S", "%Y-%m-%dT%H:%M:%S", "%s", "%Y-%m-%db", NULL, "yd", "ymcw", "ldn", "%Y-%m-%dT%H:%M:%S.%N"};
+/* how the input text is read: NULL = the format-less parser as on the command line */
+static const char *const fam_ifmt[NFAM] = {NULL, NULL, NULL, "%s", NULL, NULL, NULL, NULL, "ldn", "%Y-%m-%dT%H:%M:%S.%N"};
+static const char *const fam_opt[NFAM] = {"", "", "", "-i %s -f %s ", "", "", "", "", "-i ldn -f ldn ", "-i %FT%T.%N -f %FT%T.%N "};
 
 /* ------------------------------------------------------------- one rounding */
 static uint64_t *c_eval, *c_trans, *c_nontriv, *c_idem, *c_strict;
@@ -579,11 +697,41 @@ do_round(int fam, int64_t in, struct dt_dt_s v, const struct spec_s *s, int si, 
 
 	orc = oracle(fam, in, s, next, &exp, &skip);
 	if (orc == 1) {
-		char sk[160];
+		char sk[200];
 		snprintf(sk, sizeof(sk), "skipped:%s", skip);
 		++*ex_ctr(sk);
 		if (verbose) {
 			printf("  outside the property: %s\n", skip);
+		}
+		if (!next && strstr(skip, "reading differ")) {
+			/* which date is the target is open, that rounding twice equals rounding once is not */
+			EX_CTR(c_idem2, "idempotence_checks_under_open_reading");
+			r = dround(v, &dur, 1U, 0);
+			memset(got, 0, sizeof(got));
+			memset(got2, 0, sizeof(got2));
+			dt_strfdt(got, sizeof(got), fam_fmt[fam], r);
+			if (dt_unk_p(r) || parse_out(got, fam, &obs)) {
+				/* nothing that could be rounded again */
+				return 0;
+			}
+			dur = s->dur;
+			r2 = dround(r, &dur, 1U, 0);
+			*c_eval += 2;
+			dt_strfdt(got2, sizeof(got2), fam_fmt[fam], r2);
+			++*c_idem2;
+			ex_outcome(ex_hash_mix(ex_hash(got2, strlen(got2)), (uint64_t)s->kind));
+			if (strcmp(got, got2)) {
+				fmt_inst(itxt, sizeof(itxt), fam, in);
+				snprintf(cmd, sizeof(cmd), "dround %s-- %s %s", fam_opt[fam], itxt, s->text);
+				snprintf(cas, sizeof(cas), "%d %lld %d %d", fam, (long long)in, si, next);
+				class_key(key, sizeof(key), fam, s, next, "rounding twice differs from rounding once");
+				ex_viol(key, (double)(fam_day_p(fam) || fam == FAM_T ? in : in / 86400), cas, cmd,
+					"%s: %s, rounded again %s", cmd, got, got2);
+				if (verbose) {
+					printf("  %s: %s, rounded again %s -- rounding twice differs from rounding once\n", cmd, got, got2);
+				}
+				return 1;
+			}
 		}
 		return 0;
 	} else if (orc == 2) {
@@ -597,6 +745,16 @@ do_round(int fam, int64_t in, struct dt_dt_s v, const struct spec_s *s, int si, 
 	r = dround(v, &dur, 1U, next);
 	++*c_eval;
 	++*c_trans;
+	if (dt_unk_p(r) && (fam == FAM_SX || (fam_day_p(fam) && fam != FAM_D))) {
+		/* a target the tool cannot apply to a value held that way may be refused (main() then
+		 * prints nothing and exits 1); what it may not do is to ignore it */
+		EX_CTR(c_ref, "refusals_accepted");
+		++*c_ref;
+		if (verbose) {
+			printf("  refused\n");
+		}
+		return 0;
+	}
 	memset(got, 0, sizeof(got));
 	dt_strfdt(got, sizeof(got), fam_fmt[fam], r);
 	prc = parse_out(got, fam, &obs);
@@ -605,8 +763,9 @@ do_round(int fam, int64_t in, struct dt_dt_s v, const struct spec_s *s, int si, 
 		/* non-trivial: the input is not on the target already */
 		if (fam == FAM_T ? (s->down ? exp > in : exp < in)
 		    : fam == FAM_SX ? (exp / 86400 != in / 86400 || in < (int64_t)RC_RD_1970 * 86400)
-		    : (fam == FAM_D || fam == FAM_B) ? rc_get((int)exp)->m != rc_get((int)in)->m
 		    : fam == FAM_W ? rc_get((int)exp)->isoy != rc_get((int)in)->isoy
+		    : fam_day_p(fam) ? rc_get((int)exp)->m != rc_get((int)in)->m
+		    : fam == FAM_NS ? (exp >> 2) / 86400 != (in >> 2) / 86400
 		    : exp / 86400 != in / 86400) {
 			/* ... and the result wraps past midnight / lies in another month / on another day */
 			++*c_nontriv;
@@ -615,7 +774,7 @@ do_round(int fam, int64_t in, struct dt_dt_s v, const struct spec_s *s, int si, 
 
 	fmt_inst(itxt, sizeof(itxt), fam, in);
 	fmt_inst(etxt, sizeof(etxt), fam, exp);
-	snprintf(cmd, sizeof(cmd), "dround %s%s-- %s %s", next ? "-n " : "", fam == FAM_SX ? "-i %s -f %s " : "", itxt, s->text);
+	snprintf(cmd, sizeof(cmd), "dround %s%s-- %s %s", next ? "-n " : "", fam_opt[fam], itxt, s->text);
 	snprintf(cas, sizeof(cas), "%d %lld %d %d", fam, (long long)in, si, next);
 
 	if (prc == 1) {
@@ -625,6 +784,8 @@ do_round(int fam, int64_t in, struct dt_dt_s v, const struct spec_s *s, int si, 
 	} else if (obs != exp) {
 		if (next && obs == in) {
 			what = "--next returns the input unchanged";
+		} else if (obs == in) {
+			what = "target ignored: the input is returned unchanged";
 		} else if (!next && exp == in) {
 			what = "input already on target is moved";
 		} else if ((!s->down && fam != FAM_T && obs < in) || (s->down && fam != FAM_T && obs > in)) {
@@ -668,7 +829,7 @@ do_round(int fam, int64_t in, struct dt_dt_s v, const struct spec_s *s, int si, 
 	}
 	if (what) {
 		class_key(key, sizeof(key), fam, s, next, what);
-		ex_viol(key, (double)(fam == FAM_D || fam == FAM_B || fam == FAM_W ? in : fam == FAM_T ? in : in / 86400), cas, cmd,
+		ex_viol(key, (double)(fam_day_p(fam) || fam == FAM_T ? in : fam == FAM_NS ? (in >> 2) / 86400 : in / 86400), cas, cmd,
 			"%s: expected %s, got %s", cmd, etxt, got);
 		if (getenv("C16_TRACE")) {
 			fprintf(stderr, "FAIL %s | %s | exp %s got %s\n", cmd, what, etxt, got);
@@ -687,6 +848,7 @@ static int time_lo, time_hi;	/* time targets */
 static int bd_lo, bd_hi;	/* Nb targets (bizda values) */
 static int cobd_lo, cobd_hi;	/* /1b */
 static int wk_lo, wk_hi;	/* Nw targets (week dates) */
+static int bdx_lo, bdx_hi;	/* 21b..23b */
 
 static void
 add_spec(int kind, int n)
@@ -760,6 +922,12 @@ build_specs(void)
 		add_spec(K_WK, w);
 	}
 	wk_hi = nspec;
+	/* 21b..23b: months have 20 to 23 business days */
+	bdx_lo = nspec;
+	for (int b = 21; b <= 23; b++) {
+		add_spec(K_BD, b);
+	}
+	bdx_hi = nspec;
 }
 
 /* is the sign of a zero target expressible? "-0m" is a different command line from "0m"
@@ -769,7 +937,7 @@ static struct dt_dt_s
 parse_in(int fam, int64_t in, char *txt, size_t tsz)
 {
 	fmt_inst(txt, tsz, fam, in);
-	return dt_strpdt(txt, fam == FAM_SX ? "%s" : NULL, NULL);
+	return dt_strpdt(txt, fam_ifmt[fam], NULL);
 }
 
 /* all specs of [lo, hi) on one input */
@@ -779,14 +947,14 @@ do_input(int fam, int64_t in, int lo, int hi)
 	char txt[40];
 	struct dt_dt_s v = parse_in(fam, in, txt, sizeof(txt));
 	EX_CTR(c_states, "states");
-	if (lo != cobd_lo) {
+	if (lo != cobd_lo && lo != bdx_lo) {
 		++*c_states;
 	}
 	if (dt_unk_p(v)) {
 		{
 			char key[64];
 			snprintf(key, sizeof(key), "%s: input not accepted by the parser", fam_name[fam]);
-			ex_viol(key, (double)(fam == FAM_D || fam == FAM_T || fam == FAM_B || fam == FAM_W ? in : in / 86400), "", fam == FAM_SX ? "dround -i %s 0 /1m" : NULL, "'%s' is not parsed", txt);
+			ex_viol(key, (double)(fam_day_p(fam) || fam == FAM_T ? in : fam == FAM_NS ? (in >> 2) / 86400 : in / 86400), "", fam == FAM_SX ? "dround -i %s 0 /1m" : NULL, "'%s' is not parsed", txt);
 		}
 		return;
 	}
@@ -1239,7 +1407,7 @@ main(int argc, char *argv[])
 			printf("  binary '%s' level S '%s'\n", line, got);
 			return ex_replay_result(strcmp(line, got) != 0, "binding %s %s on %s", bind_specs[k][0], bind_specs[k][1], txt);
 		}
-		if (sscanf(ex.cas, "%d %lld %d %d", &fam, &in, &si, &next) != 4 || fam < 0 || fam > 5 || si < 0 || si >= nspec) {
+		if (sscanf(ex.cas, "%d %lld %d %d", &fam, &in, &si, &next) != 4 || fam < 0 || fam >= NFAM || si < 0 || si >= nspec) {
 			return ex_replay_result(1, "bad case string '%s'", ex.cas);
 		}
 		{
@@ -1264,15 +1432,15 @@ main(int argc, char *argv[])
 		"on the requested side; rounding the result again (no -n) must not move it. Readings: a day-of-month target beyond a month's end is judged "
 		"only when the exact and the clamped reading agree; several RNDSPECs in one call: the single-spec model applied left to right (--help), and the whole "
 		"list once more on the tool's own result; Nb (business day of the month, 1..20) on values held as business day of the month and /1b (grid = Mon-Fri) "
-		"are judged; Nw (ISO week number 1..53, accepted by the tool and pinned by test/dround.030) on week dates: nearest date on the requested side in week N with the weekday kept, week 53 of a 52-week year judged only where the exact and the clamped reading agree; not enumerated: Nq (the help does not say which month/day of the quarter is meant), Ny (refused by the tool: years do not recur), "
+		"are judged; Nw (ISO week number 1..53, accepted by the tool and pinned by test/dround.030) on week dates: nearest date on the requested side in week N with the weekday kept, week 53 of a 52-week year judged only where the exact and the clamped reading agree; dates held as week date, year-day, n-th weekday of the month, Lilian day number or business day of the month and epoch values: the same model as for ymd dates (quantifier: all dates), printed in the input's calendar; a refusal (no value) is accepted there, an ignored target is not; sub-second inputs: grid points are whole seconds, value targets keep the fraction; where the day-of-month / week-53 / business-day readings differ the target is open but rounding twice must still equal rounding once; not enumerated: Nq (the help does not say which month/day of the quarter is meant), Ny (refused by the tool: years do not recur), "
 		"Nw (not in the help's list of suffixes), the documented spelling `bd' (rejected by the parser, see notes); /Nmo only for N | 12; results beyond 1601..4095 skipped. non-trivial = the rounded value is in another month (dates), on "
 		"another day (date-times), or beyond midnight (times)");
 	ex_meta("bound", "%s: dates: all days %d-01-01..%d-12-31 x {7 weekday names, 12 month names, 12 month numbers, day-of-month 1..31, /1d, /{1,2,3,4,6,12}mo, "
 		"/{1,2,4,5,10,100}y} x {up,down} x {-,-n}; times: all 86,400 seconds x {0..23h, 0..59m, 0..59s, /{1,2,3,4,6,8,12,24}h, /{12 divisors of 60}m, "
 		"/{12 divisors}s} x {up,down} x {-,-n}; date-times: %d boundary days x 7 times x all of the above; the same instants given as Unix epoch seconds (-i %%s) x the /N time targets; main(): N = 0..70 x {h,m,s,mo,d} x {N, /N} x "
 		"{up,down} x {-,-n} x 3 inputs; lists: all ordered pairs%s over %d RNDSPECs of mixed kinds x {-,-n} on %d days (the boundary days before 4094) x 7 times (date-times) and on the days alone "
-		"(date specs only); bizda: every Mon-Fri day of the tier x 1..20b x {up,down} x {-,-n}; week dates: every day of the tier x 1..53w x {up,down} x {-,-n}, observed as week date and as %%F; binding: %d RNDSPECs x all days of the tier on stdin of the dround binary",
-		ex.thorough ? "thorough" : "quick", ylo, yhi, NBDAYS, ex.thorough ? " and triples" : "", NMDEF, NBDAYS - 3, NBIND);
+		"(date specs only); bizda: every Mon-Fri day of the tier x 1..20b x {up,down} x {-,-n}; week dates: every day of the tier x 1..53w x {up,down} x {-,-n}, observed as week date and as %%F; dates held as ywd / yd / ymcw / ldn / bizda: every day of %d years x all date targets; epoch values also x {Mon Feb 3mo 15d 5h 30m 59s /1d /Nmo /Ny /1b}; date-times with .5 / .000000001 / .999999999 s on the boundary days x all targets; 21b..23b on all Mon-Fri days; binding: %d RNDSPECs x all days of the tier on stdin of the dround binary",
+		ex.thorough ? "thorough" : "quick", ylo, yhi, NBDAYS, ex.thorough ? " and triples" : "", NMDEF, NBDAYS - 3, ex.thorough ? 24 : 2, NBIND);
 	ex_meta("binding", "dround binary of the same build reading all days of the tier from stdin for %d (option, RNDSPEC) pairs, byte-compared with the level-S observation", NBIND);
 
 	/* dates: one slice per year */
@@ -1285,6 +1453,7 @@ main(int argc, char *argv[])
 			do_input(FAM_D, rd, cobd_lo, cobd_hi);
 			if (rc_get(rd)->isbd) {
 				do_input(FAM_B, rd, bd_lo, bd_hi);
+				do_input(FAM_B, rd, bdx_lo, bdx_hi);
 			}
 			do_input(FAM_W, rd, wk_lo, wk_hi);
 		}
@@ -1320,6 +1489,60 @@ main(int argc, char *argv[])
 		for (int k = 0; k < 7; k++) {
 			int64_t in = (int64_t)rc_rd(bdays[b][0], bdays[b][1], bdays[b][2]) * 86400 + T7[k];
 			do_input(FAM_SX, in, time_lo, time_hi);
+			/* targets the tool has no epoch arithmetic for: the model's result or a refusal */
+			for (int si = 0; si < nspec; si++) {
+				const struct spec_s *sp = specs + si;
+				if ((sp->kind == K_WD && sp->n == 1) || (sp->kind == K_MON && sp->n == 2) || (sp->kind == K_MONUM && sp->n == 3) ||
+				    (sp->kind == K_DOM && sp->n == 15) || (sp->kind == K_H && sp->n == 5) || (sp->kind == K_M && sp->n == 30) ||
+				    (sp->kind == K_S && sp->n == 59) || sp->kind == K_COD || sp->kind == K_COMO || sp->kind == K_COY || sp->kind == K_COBD) {
+					if (si >= time_lo && si < time_hi) {
+						continue;
+					}
+					do_input(FAM_SX, in, si, si + 1);
+				}
+			}
+		}
+		++*c_traces;
+	}
+	/* dates held in another calendar: all date targets */
+	{
+		static const int hy_t[] = {1897, 1898, 1899, 1900, 1901, 1902, 1903, 1904, 1997, 1998, 1999, 2000, 2001, 2002, 2003, 2004,
+					   2093, 2094, 2095, 2096, 2097, 2098, 2099, 2100};
+		static const int hy_q[] = {2011, 2012};
+		static const int hfam[] = {FAM_W, FAM_YD, FAM_YMCW, FAM_LDN, FAM_B};
+		const int *hy = ex.thorough ? hy_t : hy_q;
+		int nhy = ex.thorough ? 24 : 2;
+		for (int yi = 0; yi < nhy && !ex_expired(); yi++) {
+			for (int hi = 0; hi < 5 && !ex_expired(); hi++, slice++) {
+				if (!ex_mine(slice)) {
+					continue;
+				}
+				for (int rd = rc_yearstart[hy[yi]]; rd < rc_yearstart[hy[yi] + 1]; rd++) {
+					if (hfam[hi] == FAM_B && !rc_get(rd)->isbd) {
+						continue;
+					}
+					do_input(hfam[hi], rd, date_lo, date_hi);
+					do_input(hfam[hi], rd, cobd_lo, cobd_hi);
+				}
+				++*c_traces;
+			}
+		}
+	}
+	/* date-times with a sub-second part */
+	for (int b = 0; b < NBDAYS && !ex_expired(); b++, slice++) {
+		if (!ex_mine(slice)) {
+			continue;
+		}
+		if (bdays[b][0] >= 4094) {
+			/* would only repeat the known range finding (day counts above 910674) */
+			continue;
+		}
+		for (int k = 0; k < 7; k++) {
+			for (int f = 0; f < 3; f++) {
+				int64_t in = (((int64_t)rc_rd(bdays[b][0], bdays[b][1], bdays[b][2]) * 86400 + T7[k]) << 2) | f;
+				do_input(FAM_NS, in, 0, bd_lo);
+				do_input(FAM_NS, in, cobd_lo, cobd_hi);
+			}
 		}
 		++*c_traces;
 	}
